@@ -929,10 +929,25 @@ func checkResultIsRetained(c *Ctx, p *core.Prog) {
 					}
 					break
 				}
-				// retain[i]: a boolean loaded from an element of a []bool
+				// retain[i]: a boolean loaded from an element of a []bool - or the boolean field of an element of a slice of
+				// structs that keeps each candidate together with its flag
 				if ld, isLd := cond.(*ssa.UnOp); isLd {
 					if ia, isIA := ld.X.(*ssa.IndexAddr); isIA {
 						if sl, isSl := ia.X.Type().Underlying().(*types.Slice); isSl && isBool(sl.Elem()) {
+							flag = true
+							continue
+						}
+					}
+					if fa, isFA := ld.X.(*ssa.FieldAddr); isFA && isBool(ld.Type()) {
+						if _, isIA := fa.X.(*ssa.IndexAddr); isIA || elementBehindCopy(fa.X) != nil {
+							flag = true
+							continue
+						}
+					}
+				}
+				if fv, isF := cond.(*ssa.Field); isF && isBool(fv.Type()) {
+					if ld, isLd := fv.X.(*ssa.UnOp); isLd {
+						if _, isIA := ld.X.(*ssa.IndexAddr); isIA {
 							flag = true
 							continue
 						}
@@ -1047,6 +1062,16 @@ func orderPreservingFilter(m ssa.Value, sorted map[ssa.Value]bool, sortCall ssa.
 		if el == nil {
 			return false, "append of more than one element or of a spread slice"
 		}
+		if zi, okZ := zippedElement(el, sorted, sortCall); okZ {
+			// the element is read from a slice of structs that was filled, index by index, from the sorted slice
+			if !ascendingIndex(zi) {
+				return false, "the index into the zipped slice is not an ascending loop index"
+			}
+			if sortCall != nil && !instrBeforeI(sortCall, call) {
+				return false, "the filter runs before the sort"
+			}
+			continue
+		}
 		ld, ok := el.(*ssa.UnOp)
 		if !ok || ld.Op != token.MUL {
 			return false, "appended element is not an element of the sorted slice"
@@ -1066,6 +1091,94 @@ func orderPreservingFilter(m ssa.Value, sorted map[ssa.Value]bool, sortCall ssa.
 		return false, "nothing is appended to the returned slice"
 	}
 	return true, fmt.Sprintf("built by %d append(s) of sorted[i] with i ascending, after the sort", n)
+}
+
+// elementBehindCopy: addr is (a field address of) a local variable that is assigned, in one place, the element s[i] of a
+// slice (`for _, r := range s`: r is a copy of s[i]): returns the address &s[i].
+func elementBehindCopy(base ssa.Value) *ssa.IndexAddr {
+	al, ok := base.(*ssa.Alloc)
+	if !ok {
+		return nil
+	}
+	var ia *ssa.IndexAddr
+	n := 0
+	for _, r := range *al.Referrers() {
+		st, ok := r.(*ssa.Store)
+		if !ok || st.Addr != ssa.Value(al) {
+			continue
+		}
+		n++
+		if ld, ok := st.Val.(*ssa.UnOp); ok && ld.Op == token.MUL {
+			ia, _ = ld.X.(*ssa.IndexAddr)
+		}
+	}
+	if n != 1 {
+		return nil
+	}
+	return ia
+}
+
+// zippedElement: el is field f of zip[i], where zip is a slice of structs made in this function whose field f is written by
+// exactly one store zip[k].f = sorted[k] (the same index on both sides, after the sort): zip[i].f is then sorted[i].
+// Returns the index i.
+func zippedElement(el ssa.Value, sorted map[ssa.Value]bool, sortCall ssa.Instruction) (ssa.Value, bool) {
+	var ia *ssa.IndexAddr
+	field := -1
+	switch x := el.(type) {
+	case *ssa.UnOp:
+		if fa, ok := x.X.(*ssa.FieldAddr); ok && x.Op == token.MUL {
+			ia, _ = fa.X.(*ssa.IndexAddr)
+			if ia == nil {
+				ia = elementBehindCopy(fa.X)
+			}
+			field = fa.Field
+		}
+	case *ssa.Field:
+		if ld, ok := x.X.(*ssa.UnOp); ok && ld.Op == token.MUL {
+			ia, _ = ld.X.(*ssa.IndexAddr)
+			field = x.Field
+		}
+	}
+	if ia == nil {
+		return nil, false
+	}
+	zip, ok := ia.X.(*ssa.MakeSlice)
+	if !ok {
+		return nil, false
+	}
+	n := 0
+	for _, b := range zip.Parent().Blocks {
+		for _, in := range b.Instrs {
+			st, ok := in.(*ssa.Store)
+			if !ok {
+				continue
+			}
+			fa, ok := st.Addr.(*ssa.FieldAddr)
+			if !ok || fa.Field != field {
+				continue
+			}
+			zi, ok := fa.X.(*ssa.IndexAddr)
+			if !ok || zi.X != ssa.Value(zip) {
+				continue
+			}
+			n++
+			src, ok := st.Val.(*ssa.UnOp)
+			if !ok || src.Op != token.MUL {
+				return nil, false
+			}
+			si, ok := src.X.(*ssa.IndexAddr)
+			if !ok || !sorted[si.X] || si.Index != zi.Index {
+				return nil, false
+			}
+			if sortCall != nil && !instrBeforeI(sortCall, st) {
+				return nil, false
+			}
+		}
+	}
+	if n != 1 {
+		return nil, false
+	}
+	return ia.Index, true
 }
 
 func singleVarargElem(v ssa.Value) ssa.Value {
